@@ -11,6 +11,7 @@ import MosnVerif.Lemmas.PoolRecover
 import MosnVerif.Lemmas.H2ReadLoop
 import MosnVerif.Model.DubboMeta
 import MosnVerif.Lemmas.H1Serve
+import MosnVerif.Lemmas.H2ClientSettings
 /-!
 # C08 — malformed input is contained (property theorems only)
 
@@ -605,5 +606,79 @@ theorem http1_limits_enforced (cfg headLen avail : Nat) (h : effReader (h1_srvRe
 example : (headRead 8192 8192 9000).1 = .parsed ∧ (headRead 8192 8193 9000) = (.tooLarge, 8192) ∧
     (headRead 8192 100000 5000) = (.needMore, 5000) ∧ (headRead 3 17 40) = (.tooLarge, 16) := by decide
 end http1
+
+/-! ## [c08l9] SETTINGS of an upstream are validated before they are applied; the request writers' loops end -/
+section c08l9settings
+open MosnVerif.Model.H2ClientSettings MosnVerif.Lemmas.H2ClientSettings MosnVerif.Gen
+
+/-- the tie of this section, decided on the regenerated structure: on BOTH sides (MServerConn via the embedded
+serverConn.processSetting, MClientConn via its callback) the function handed to `ForeachSetting` returns the error of
+`s.Valid()` before it assigns anything; MAX_FRAME_SIZE is stored in the field the writers read; the HEADERS loop has the
+shape the model is written from and its callers pass that field. -/
+theorem settings_validated_before_applied :
+    C08H2Settings.clientValidatesFirst = true ∧ C08H2Settings.serverValidatesFirst = true ∧
+    stores C08H2Settings.clientApplies 5 "cc.maxFrameSize" = true ∧
+    stores C08H2Settings.serverApplies 5 "sc.maxFrameSize" = true ∧
+    C08H2Settings.headersLoopShape = ["len(hdrs)>0", "chunk:=hdrs", "cut:chunk=chunk[:maxFrameSize]", "hdrs=hdrs[len(chunk):]"] ∧
+    C08H2Settings.headersMaxArgs.all (fun a => a == "int(cc.maxFrameSize)" || a == "int(cc.conn.maxFrameSize)") = true ∧
+    0 < C08H2Settings.dataFragMax := by decide
+
+/-- **client_settings_keep_frame_size_in_range**: whatever SETTINGS frames an upstream sends (EVERY list of
+(id, value) pairs, every id and every 32-bit or larger value), if `processSettings` (regenerated: validates first,
+assignments) accepts them the stored MAX_FRAME_SIZE is inside [16384, 2^24-1]. -/
+theorem client_settings_keep_frame_size_in_range (ss : List (Nat × Nat)) (c0 c : Conn) (h0 : c0.Ok)
+    (h : processSettings C08H2Settings.clientValidatesFirst C08H2Settings.clientApplies c0 ss = .ok c) : c.Ok := by
+  have hv : C08H2Settings.clientValidatesFirst = true := by decide
+  rw [hv] at h
+  exact processSettings_ok _ ss c0 c h0 h
+
+/-- **client_request_writers_terminate** (no unbounded loop on the goroutine that writes a request): after ANY accepted
+sequence of SETTINGS, for EVERY header block length and EVERY body length covered by the send window, the
+HEADERS/CONTINUATION loop of `writeHeaders` and the DATA loop of `writeDataAndTrailer` end within (length) turns, every
+frame carries at least one octet (progress), header fragments are at most the peer's frame size, and the fragments add
+up to what was to be written. -/
+theorem client_request_writers_terminate (ss : List (Nat × Nat)) (c : Conn)
+    (h : processSettings C08H2Settings.clientValidatesFirst C08H2Settings.clientApplies init ss = .ok c)
+    (hlen b avail : Nat) (hb : b ≤ avail) :
+    (∃ fs, headerFrames c.maxFrameSize (hlen + 1) hlen = some fs ∧ sumI fs = hlen ∧
+      (∀ f ∈ fs, 0 < f ∧ f ≤ (c.maxFrameSize : Int)) ∧ (fs.length : Int) ≤ hlen) ∧
+    (∃ fs, dataFrames c.maxFrameSize (b + 1) avail b = some fs ∧ sumI fs = b ∧ ∀ f ∈ fs, 0 < f) := by
+  have hok := client_settings_keep_frame_size_in_range ss init c init_ok h
+  have hm : (0 : Int) < (c.maxFrameSize : Int) := by have := hok.1; omega
+  exact ⟨headerFrames_terminates _ hm hlen hlen (by omega) (by omega),
+    dataFrames_terminates _ hm b avail b (by omega) (by omega) (by omega)⟩
+
+/-- the model's outcome of EVERY `h2set` case satisfies the executable predicate (the request ends; every frame makes
+progress) — for every setting id, every value, every header block and every body covered by the initial window -/
+theorem h2set_spec_holds_on_model (id val hdr hlen b : Nat) (hb : b ≤ 65535) :
+    h2setSpec (h2setModel C08H2Settings.clientValidatesFirst C08H2Settings.clientApplies id val hdr hlen b) = true := by
+  unfold h2setModel
+  split
+  · exact request_spec _ _ _ _ _ (by decide) (by decide) hb
+  · rename_i c hc
+    split
+    · decide
+    · have hok := client_settings_keep_frame_size_in_range _ init c init_ok hc
+      exact request_spec _ _ _ _ _ (by decide) (by have := hok.1; omega) hb
+
+/-- machine-checked witness of the defect that was repaired (fix: MClientConn.processSettings calls Valid first): a
+callback that does NOT validate accepts MAX_FRAME_SIZE = 0, and then neither loop ever ends, whatever the fuel — for every
+non-empty header block and every non-empty body. -/
+theorem unvalidated_settings_wedge :
+    ∃ c, processSettings false C08H2Settings.clientApplies init [(5, 0)] = .ok c ∧
+      (∀ fuel (rest : Int), 0 < rest → headerFrames c.maxFrameSize fuel rest = none) ∧
+      (∀ fuel (avail rest : Int), 0 < rest → 0 < avail → dataFrames c.maxFrameSize fuel avail rest = none) := by
+  refine ⟨{ init with maxFrameSize := 0 }, by rfl, ?_, ?_⟩
+  · intro fuel rest hr; exact headerFrames_diverges 0 (by omega) fuel rest hr
+  · intro fuel avail rest hr ha; exact dataFrames_diverges fuel avail rest hr ha
+
+-- non-vacuity: a SETTINGS frame that is accepted and changes the frame size; 40019 octets of header block in 3 frames
+example : processSettings C08H2Settings.clientValidatesFirst C08H2Settings.clientApplies init [(4, 70000), (5, 20000)]
+    = .ok { init with maxFrameSize := 20000, initialWindow := 70000 } := by rfl
+example : headerFrames 20000 40020 40019 = some [20000, 20000, 19] := by decide
+example : dataFrames 20000 30001 65535 30000 = some [16384, 3616, 10000] := by decide
+example : processSettings C08H2Settings.clientValidatesFirst C08H2Settings.clientApplies init [(5, 0)] = .error 1 := by rfl
+example : headerFrames 0 40 5 = none := by decide
+end c08l9settings
 
 end MosnVerif.Props.C08
